@@ -77,6 +77,26 @@ class Sym:
         return self.place_at(p, self.pos(bid, idx))
 
     def place_at(self, p, pos):
+        proj = p['proj']
+        ix = [i for i, pr in enumerate(proj) if isinstance(pr, dict) and 'index' in pr]
+        if ix:
+            # keep dynamic index expressions: value of the prefix place, then project element by element
+            i0 = ix[0]
+            base = self.place_at({'local': p['local'], 'proj': proj[:i0]}, pos)
+            for pr in proj[i0:]:
+                if pr == 'deref':
+                    continue
+                if isinstance(pr, dict) and 'index' in pr:
+                    base = ('index', base, self.loc_value_at((pr['index'],), pos))
+                elif isinstance(pr, dict) and 'field' in pr:
+                    base = self.proj1(base, pr['name'])
+                elif isinstance(pr, dict) and 'downcast' in pr:
+                    base = ('variant', base, str(pr['downcast']))
+                elif isinstance(pr, dict) and 'const_index' in pr:
+                    base = ('index', base, '[%s%d]' % ('-' if pr.get('from_end') else '', pr['const_index']))
+                else:
+                    base = ('index', base, '[?]')
+            return base
         loc = self.fn.loc(p)
         n = 0
         while len(loc) == 1 and loc[0] in self.fn.refmap() and n < 20:
@@ -361,7 +381,7 @@ def fmt(e, depth=0):
     if h == 'variant':
         return f"({f(e[1])} as {e[2]})"
     if h == 'index':
-        return f"{f(e[1])}{e[2]}"
+        return f"{f(e[1])}[{f(e[2])}]" if isinstance(e[2], tuple) else f"{f(e[1])}{e[2]}"
     if h == 'discr':
         return f"discr({f(e[1])})"
     if h == 'len':
@@ -403,7 +423,9 @@ def walk(e):
         return
     yield e
     h = e[0]
-    if h in ('field', 'variant', 'index', 'discr', 'len', 'okof', 'un', 'cast', 'repeat'):
+    if h == 'index':
+        kids = [e[1]] + ([e[2]] if isinstance(e[2], tuple) else [])
+    elif h in ('field', 'variant', 'discr', 'len', 'okof', 'un', 'cast', 'repeat'):
         kids = [e[1]] if h != 'un' else [e[2]]
     elif h == 'call':
         kids = list(e[2])
@@ -463,6 +485,8 @@ def map_children(e, f):
         return ('un', e[1], f(e[2]))
     if h == 'after':
         return ('after', f(e[1]), e[2], f(e[3]))
+    if h == 'index' and isinstance(e[2], tuple):
+        return ('index', f(e[1]), f(e[2]))
     return (h, f(e[1])) + tuple(e[2:])
 
 
@@ -493,6 +517,26 @@ def simplify_proj(e):
             if inner[0] == 'call' and isinstance(inner[1], str) and (inner[1].endswith('Try>::branch') or inner[1].endswith('Try::branch')):
                 return ('okof', inner[2][0])
     return e
+
+
+def const_eval(e):
+    """value of a constant integer expression (unoptimised MIR keeps `1 << 8` as an operation), else None"""
+    if not isinstance(e, tuple):
+        return None
+    if e[0] == 'const':
+        return e[1]
+    if e[0] == 'cast':
+        return const_eval(e[1])
+    if e[0] == 'bin':
+        a, b = const_eval(e[2]), const_eval(e[3])
+        if a is None or b is None:
+            return None
+        op = e[1].replace('Unchecked', '').replace('WithOverflow', '')
+        try:
+            return {'Add': a + b, 'Sub': a - b, 'Mul': a * b, 'Shl': a << b, 'Shr': a >> b, 'BitAnd': a & b, 'BitOr': a | b, 'BitXor': a ^ b}[op] & ((1 << 128) - 1)
+        except KeyError:
+            return None
+    return None
 
 
 def strip_casts(e):
